@@ -277,6 +277,7 @@ def body(r):
     worlds = [swarm.build_world(seed, 130000 + i, "ins", ["ins"], rr, p_fault=0.5, max_cycles=2) for i in range(n)]
     swarm.run_swarm(r, PROP, worlds, oracles=("INS-STORE",), label="in-run")
     return r.finish(
+        minimise=swarm.make_minimiser(PROP, (), ("INS-STORE",)),
         rule=("layer 1: Hypothesis stateful machine over OrderedSamples for each of the four strict x replace_all "
               "modes (16 seeds): rules add_initial, set_threshold (values below / equal / above the live range), "
               "remove, append_column_and_add, update_evidence, finalise and the fault `restart` (pickle round trip; "
